@@ -13,6 +13,8 @@ plus a sys audit hook for exec/compile/import/os.system/subprocess/open/socket..
 """
 import ast
 import builtins
+import json
+import os
 import itertools
 import re
 import sys
@@ -143,7 +145,8 @@ def leaf_oracle(leaf, names):
     try:
         pattern = re.compile(r'^%s$' % leaf)
         rx = ('m', [k + 1 for k, name in enumerate(names) if pattern.match(name)])
-    except Exception as exc:
+    except (re.error, OverflowError, RecursionError) as exc:
+        # the exceptions _get_matches turns into ApplicationStatusParseError; anything else is a driver error
         rx = ('e', svenv.crash_kind(exc))
     return exact, rx
 
@@ -193,7 +196,9 @@ def parse_oracle(formula, names, stats):
         tree = ast.parse(formula)
     except SyntaxError:
         return ('PSyntaxError',), None
-    except BaseException as exc:   # MemoryError, RecursionError, ValueError: not caught by the setter
+    except (ValueError, RecursionError, MemoryError):   # caught by the setter since /repo 67529b2
+        return ('PParserError',), None
+    except BaseException as exc:   # anything else is not caught by the setter
         return ('PRaise', svenv.crash_kind(exc)), None
     first = translate_top(tree.body[0], names, stats) if len(tree.body) == 1 else None
     return ('PBody', len(tree.body), first), tree
@@ -219,8 +224,8 @@ def emit_expr(e):
 def emit_parsed(p):
     if p is None:
         return None
-    if p[0] == 'PSyntaxError':
-        return app('Some', C('PSyntaxError'))
+    if p[0] in ('PSyntaxError', 'PParserError'):
+        return app('Some', C(p[0]))
     if p[0] == 'PRaise':
         return app('Some', app('PRaise', C(p[1])))
     _, n, first = p
@@ -531,10 +536,9 @@ HOSTILE = [
 
 class AppFormulaSuite(AppSuiteBase):
     name = 'appstatus_formulas'
-    evals = {'mismatches': 'mismatches', 'spec_violations': 'spec_violations',
-             'known:F14-func-not-name': 'known_func_not_name', 'known:F14-no-args': 'known_no_args',
-             'known:F14-bad-regex': 'known_bad_regex', 'known:F14-extra-args': 'known_extra_args',
-             'known:F14-toplevel-not-expr': 'known_toplevel', 'known:F14-parse-raises': 'known_parse_raises'}
+    # no known-finding class is left (all F14 classes fixed by /repo 67529b2): every violation is reported
+    evals = {'mismatches': 'mismatches', 'spec_violations': 'spec_violations'}
+    CORPUS = os.path.join(os.path.dirname(os.path.abspath(__file__)), 'corpus', 'c15_formulas.json')
 
     # ----- formula generators
     @staticmethod
@@ -598,7 +602,7 @@ class AppFormulaSuite(AppSuiteBase):
 
     def generate(self, rng, tier):
         n = 1800 if tier == 'quick' else 40000
-        out = list(self.witnesses())
+        out = []
         for k in range(n):
             mode = ('well', 'well', 'ill', 'hostile', 'well', 'ill', 'hostile')[k % 7]
             names = list(rng.choice(NAME_POOLS))
@@ -621,18 +625,20 @@ class AppFormulaSuite(AppSuiteBase):
                         'mode': mode})
         return out
 
-    @staticmethod
-    def witnesses():
-        """ minimal witnesses of the known-finding classes + boundary formulas; always run first """
-        def case(formula, states=('RUNNING', 'RUNNING')):
+    def corpus(self):
+        """ former witnesses of the fixed F14 classes + boundary formulas; always run first.
+        An entry: {"formula": str | ["repeat", prefix, count, suffix], "states": [...], "what": str} """
+        with open(self.CORPUS) as f:
+            entries = json.load(f)
+        out = []
+        for ent in entries:
+            formula = ent['formula']
+            if isinstance(formula, list):
+                formula = formula[1] * formula[2] + formula[3]
             procs = [{'name': f'p{k + 1}', 'ops': [('add', 1, st, True)], 'required': False, 'seq': 1}
-                     for k, st in enumerate(states)]
-            return {'procs': procs, 'managed': True, 'prefix': len(procs), 'formula': formula, 'mode': 'witness'}
-        return [case('a.b("p1")'), case('all()'), case('"("'), case('all("p1", "zz")'), case('pass'),
-                case('return'), case('x = "p1"'), case('"a{99999999999}"'), case('not ' * 100000 + '"p1"'),
-                case('all("p.*")'), case('all("p.*")', ('RUNNING', 'STOPPED')), case('any("p.*")', ('FATAL', 'RUNNING')),
-                case('"p.*"'), case('"zz"'), case('not ' * (MAX_DEPTH - 2) + '"p1"'),
-                case('__import__("os").system("true")'), case('"p1" and not "p2"', ('RUNNING', 'EXITED'))]
+                     for k, st in enumerate(ent.get('states', ['RUNNING', 'RUNNING']))]
+            out.append({'procs': procs, 'managed': True, 'prefix': len(procs), 'formula': formula, 'mode': 'corpus'})
+        return out
 
     def nontrivial(self, inp, ob):
         if ob['setter'] == 'OStored':
